@@ -55,6 +55,7 @@ theorem scanLoop_stack (expected : Kind) (fuel i : Nat) (inAttr : Bool) (first :
       split at h
       · cases h; exact hs
       · split at h
+        · cases h; exact hs
         · rw [ih _ _ _ h, hs]
         · rw [ih _ _ _ h, hs]
         · rw [ih _ _ _ h, hs]
@@ -579,70 +580,319 @@ theorem noguard_diverges (n : Nat) : (run false n (initial [rp] eof0) []).2 = .f
     unfold run; rw [noguard_s0]; simp only []
     exact (noguard_cycle n _).1
 
-/-! ### `scan_continue_block` diverges once it is inside an attribute at end of input -/
+/-! ### `scan_continue_block` terminates (after commit 3521415) -/
 
-theorem peekToken_eof (k : Nat) (st : St) (hin : st.input = []) (he : st.eofTok.kind = .eof)
+theorem fetch_nil {st : St} (h : st.input = []) :
+    fetch st = .ok ({ st.eofTok with kind := .eof }, st) := by
+  simp [fetch, h]
+
+/-- At end of input at least one fetch puts the tokenizer's EOF at the bottom. -/
+theorem peekToken_nil (k : Nat) (st : St) (hin : st.input = []) (hk : 1 ≤ k) :
+    ∃ t st', peekToken k st = .ok (some t, st') ∧ t.kind = .eof ∧ st'.input = [] ∧
+      st'.eofTok = st.eofTok ∧ st'.unproc.getLast? = some t ∧
+      (∀ u ∈ st'.unproc, u ∈ st.unproc ∨ u.kind = .eof) := by
+  induction k generalizing st with
+  | zero => omega
+  | succ k ih =>
+    simp only [peekToken, fetch_nil hin]
+    cases k with
+    | zero =>
+      refine ⟨{ st.eofTok with kind := .eof },
+        { st with unproc := st.unproc ++ [{ st.eofTok with kind := .eof }] },
+        by simp [peekToken], rfl, hin, rfl, by simp, ?_⟩
+      intro u hu; simp at hu; rcases hu with h | h
+      · exact Or.inl h
+      · right; rw [h]
+    | succ k =>
+      obtain ⟨t, st', h1, h2, h3, h4, h5, h6⟩ :=
+        ih { st with unproc := st.unproc ++ [{ st.eofTok with kind := .eof }] } hin (by omega)
+      refine ⟨t, st', h1, h2, h3, h4, h5, ?_⟩
+      intro u hu
+      rcases h6 u hu with h | h
+      · simp at h; rcases h with h | h
+        · exact Or.inl h
+        · right; rw [h]
+      · exact Or.inr h
+
+/-- What `k` fetches do: either they all come from the input, or the bottom is an EOF. -/
+theorem peekToken_shape (k : Nat) (st : St) :
+    match peekToken k st with
+    | .error _ => True
+    | .ok (o, st') =>
+      (st'.input.length + k = st.input.length ∧ st'.unproc.length = st.unproc.length + k) ∨
+      (st.input.length < k ∧ ∃ t, o = some t ∧ t.kind = .eof) := by
+  induction k generalizing st with
+  | zero => simp [peekToken]
+  | succ k ih =>
+    cases hin : st.input with
+    | nil =>
+      obtain ⟨t, st', h1, h2, _⟩ := peekToken_nil (k + 1) st hin (by omega)
+      rw [h1]
+      right
+      exact ⟨by simp, t, rfl, h2⟩
+    | cons a rest =>
+      by_cases hl : a.kind = .lexErr
+      · simp [peekToken, fetch, hin, hl]
+      · have := ih { input := rest, eofTok := st.eofTok, unproc := st.unproc ++ [a], stack := st.stack }
+        simp only [peekToken, fetch, hin, hl, if_false]
+        revert this
+        generalize peekToken k { input := rest, eofTok := st.eofTok, unproc := st.unproc ++ [a], stack := st.stack } = r
+        intro h
+        cases r with
+        | error e => trivial
+        | ok r =>
+          obtain ⟨o, st'⟩ := r
+          simp only [List.length_append, List.length_cons, List.length_nil] at h ⊢
+          rcases h with ⟨h1, h2⟩ | ⟨h1, h2⟩
+          · left; constructor <;> omega
+          · right; exact ⟨by omega, h2⟩
+
+/-- The measure of the scan: tokens not yet fetched + buffered tokens not yet re-read. -/
+def scanMeasure (i : Nat) (st : St) : Nat := st.input.length + (st.unproc.length + 1 - i)
+
+theorem scanLoop_terminates (expected : Kind) (fuel i : Nat) (inAttr : Bool) (first : Tok) (st : St)
+    (hi : 1 ≤ i) (hf : scanMeasure i st < fuel) :
+    scanLoop expected fuel i inAttr first st ≠ .hang := by
+  induction fuel generalizing i inAttr st with
+  | zero => omega
+  | succ fuel ih =>
+    unfold scanLoop
+    have hi0 : i ≠ 0 := by omega
+    simp only [hi0, if_false]
+    have hshape := peekToken_shape (i - st.unproc.length) st
+    revert hshape
+    cases hp : peekToken (i - st.unproc.length) st with
+    | error e => intro _; simp
+    | ok r =>
+      obtain ⟨o, st'⟩ := r
+      intro hshape
+      simp only at hshape
+      cases o with
+      | none => simp
+      | some t =>
+        simp only
+        split
+        · simp
+        · -- the recursive calls all have a smaller measure, unless `t` is the EOF
+          have hrec : t.kind ≠ .eof → ∀ b, scanLoop expected fuel (i + 1) b first st' ≠ .hang := by
+            intro hne b
+            apply ih (i + 1) b st' (by omega)
+            rcases hshape with ⟨h1, h2⟩ | ⟨_, t', ht, hk⟩
+            · unfold scanMeasure at hf ⊢
+              omega
+            · cases ht; exact absurd hk hne
+          split
+          · simp
+          · rename_i hk; exact hrec (by rw [hk]; decide) _
+          · rename_i hk; exact hrec (by rw [hk]; decide) _
+          · rename_i hk; exact hrec (by rw [hk]; decide) _
+          · rename_i h1 h2 h3 h4
+            split
+            · exact hrec (fun h => h1 h) _
+            · simp
+
+theorem scanLoop0_terminates (expected : Kind) (first : Tok) (st : St) :
+    scanLoop expected (scanFuel st) 0 false first st ≠ .hang := by
+  have hrec : ∀ b, scanLoop expected (st.unproc.length + st.input.length + 2) 1 b first st ≠ .hang :=
+    fun b => scanLoop_terminates expected _ 1 b first st (by omega) (by unfold scanMeasure; omega)
+  unfold scanFuel scanLoop
+  simp only [if_true]
+  split
+  · simp
+  · split
+    · simp
+    · exact hrec _
+    · exact hrec _
+    · exact hrec _
+    · split
+      · exact hrec _
+      · simp
+
+theorem continueBlock_ne_hang (c : Ctx) (tok : Tok) (st : St) : continueBlock c tok st ≠ .hang := by
+  unfold continueBlock
+  split
+  · split
+    · simp
+    · split
+      · unfold scanContinueBlock
+        split
+        · exact scanLoop0_terminates _ _ _
+        · exact scanLoop0_terminates _ _ _
+        · simp
+      · simp
+  · simp
+
+theorem ofExcept_ne_hang (t : Tok) (e : Except LErr St) : ofExcept t e ≠ .hang := by
+  unfold ofExcept; split <;> simp
+
+theorem finish_ne_hang (tok : Tok) (off : Offside) (st : St) : finish tok off st ≠ .hang := by
+  unfold finish
+  intro h
+  split at h
+  · exact ofExcept_ne_hang _ _ h
+  · split at h
+    · dsimp only at h
+      split at h
+      · simp [layoutToken] at h
+      · cases h
+    · exact ofExcept_ne_hang _ _ h
+    · exact ofExcept_ne_hang _ _ h
+    · exact ofExcept_ne_hang _ _ h
+    · exact ofExcept_ne_hang _ _ h
+    · exact ofExcept_ne_hang _ _ h
+    · split at h
+      · cases h
+      · dsimp only at h
+        split at h
+        · exact ofExcept_ne_hang _ _ h
+        · cases h
+    · cases h
+    · cases h
+
+theorem implicitIn_ne_hang (tok : Tok) (off : Offside) (st : St) :
+    implicitIn tok off st ≠ .done .hang := by
+  unfold implicitIn
+  intro h
+  simp only at h
+  split at h
+  · split at h
+    · cases h
+    · rename_i hcb; exact continueBlock_ne_hang _ _ _ hcb
+    · cases h
+    · repeat' split at h
+      all_goals simp at h
+  · cases h
+
+theorem offsideRule_ne_hang (tok : Tok) (off : Offside) (st : St) :
+    offsideRule tok off st ≠ .done .hang := by
+  unfold offsideRule
+  intro h
+  simp only at h
+  split at h
+  · repeat' split at h
+    all_goals simp [layoutToken] at h
+  · split at h <;> simp at h
+  · split at h <;> simp at h
+  · split at h <;> simp at h
+  · exact implicitIn_ne_hang _ _ _ h
+  · exact implicitIn_ne_hang _ _ _ h
+  · cases h
+
+theorem closing_ne_hang (guard : Bool) (tok : Tok) (off : Offside) (st : St) :
+    closing guard tok off st ≠ .done .hang := by
+  unfold closing
+  intro h
+  simp only at h
+  repeat' split at h
+  all_goals simp [layoutToken] at h
+
+theorem step_ne_hang (guard : Bool) (tok : Tok) (st : St) : step guard tok st ≠ .hang := by
+  unfold step
+  intro h
+  split at h
+  · cases h
+  · split at h
+    · split at h
+      · cases h
+      · simp [layoutToken] at h
+    · split at h
+      · cases h
+      · split at h
+        · split at h
+          · rename_i r hc; subst h; exact closing_ne_hang _ _ _ _ hc
+          · exact finish_ne_hang _ _ _ h
+        · split at h
+          · rename_i r hc; subst h; exact offsideRule_ne_hang _ _ _ hc
+          · exact finish_ne_hang _ _ _ h
+
+theorem loop_ne_hang (guard : Bool) (fuel : Nat) (tok : Tok) (st : St) :
+    loop guard fuel tok st ≠ .hang := by
+  induction fuel generalizing tok st with
+  | zero => simp [loop]
+  | succ fuel ih =>
+    unfold loop
+    split
+    · simp
+    · exact ih _ _
+    · simp
+    · simp
+    · rename_i h; exact absurd h (step_ne_hang _ _ _)
+
+theorem enter_ne_hang (guard : Bool) (tok : Tok) (st : St) :
+    (if tok.kind = .eof ∧ st.stack = [] then Res.ret tok st
+      else loop guard (measure tok st + 1) tok st) ≠ .hang := by
+  split
+  · simp
+  · exact loop_ne_hang _ _ _ _
+
+theorem layoutNextToken_ne_hang (guard : Bool) (st : St) : layoutNextToken guard st ≠ .hang := by
+  unfold layoutNextToken
+  split
+  · simp
+  · exact enter_ne_hang _ _ _
+
+theorem run_ne_hang (guard : Bool) (fuel : Nat) (st : St) (acc : List Tok) :
+    (run guard fuel st acc).2 ≠ .hang := by
+  induction fuel generalizing st acc with
+  | zero => simp [run]
+  | succ fuel ih =>
+    unfold run
+    split
+    · split
+      · simp
+      · exact ih _ _
+    · simp
+    · simp
+    · rename_i h; exact absurd h (layoutNextToken_ne_hang _ _)
+    · simp
+
+/-! ### The old rule: `scan_continue_block` diverged inside an attribute at end of input -/
+
+theorem peekToken_eof (k : Nat) (st : St) (hin : st.input = [])
     (hall : ∀ t ∈ st.unproc, t.kind = .eof) (hk : 1 ≤ k ∨ st.unproc ≠ []) :
     ∃ t st', peekToken k st = .ok (some t, st') ∧ t.kind = .eof ∧ st'.input = [] ∧
-      st'.eofTok = st.eofTok ∧ (∀ t ∈ st'.unproc, t.kind = .eof) ∧ st'.unproc ≠ [] := by
-  induction k generalizing st with
+      (∀ t ∈ st'.unproc, t.kind = .eof) := by
+  cases k with
   | zero =>
     have hne : st.unproc ≠ [] := by rcases hk with h | h; omega; exact h
     obtain ⟨t, ht⟩ : ∃ t, st.unproc.getLast? = some t := by
       cases hu : st.unproc with
       | nil => exact absurd hu hne
-      | cons a l => simp [List.getLast?_cons_cons, List.getLast?_eq_some_getLast]
-    refine ⟨t, st, by simp [peekToken, ht], hall t (List.mem_of_getLast? ht), hin, rfl, hall, hne⟩
-  | succ k ih =>
-    have hf : fetch st = .ok (st.eofTok, st) := by simp [fetch, hin]
-    simp only [peekToken, hf]
-    have := ih { st with unproc := st.unproc ++ [st.eofTok] } hin he
-      (by intro t ht; simp at ht; rcases ht with h | h; exact hall t h; rw [h]; exact he)
-      (Or.inr (by simp))
-    obtain ⟨t, st', h1, h2, h3, h4, h5, h6⟩ := this
-    exact ⟨t, st', h1, h2, h3, h4, h5, h6⟩
+      | cons a l => simp [List.getLast?_eq_some_getLast]
+    exact ⟨t, st, by simp [peekToken, ht], hall t (List.mem_of_getLast? ht), hin, hall⟩
+  | succ k =>
+    obtain ⟨t, st', h1, h2, h3, _, _, h6⟩ := peekToken_nil (k + 1) st hin (by omega)
+    refine ⟨t, st', h1, h2, h3, ?_⟩
+    intro u hu
+    rcases h6 u hu with h | h
+    · exact hall u h
+    · exact h
 
-theorem scanLoop_diverges (expected : Kind) (hexp : expected ≠ .eof) (n i : Nat) (first : Tok)
-    (st : St) (hin : st.input = []) (he : st.eofTok.kind = .eof)
-    (hall : ∀ t ∈ st.unproc, t.kind = .eof) (hi : 1 ≤ i) :
-    scanLoop expected n i true first st = .hang := by
+theorem scanLoopOld_diverges (expected : Kind) (hexp : expected ≠ .eof) (n i : Nat) (first : Tok)
+    (st : St) (hin : st.input = []) (hall : ∀ t ∈ st.unproc, t.kind = .eof) (hi : 1 ≤ i) :
+    scanLoopOld expected n i true first st = .hang := by
   induction n generalizing i st with
-  | zero => simp [scanLoop]
+  | zero => simp [scanLoopOld]
   | succ n ih =>
     have hk : 1 ≤ i - st.unproc.length ∨ st.unproc ≠ [] := by
       cases hu : st.unproc with
       | nil => left; simp; omega
       | cons a l => right; simp
-    obtain ⟨t, st', h1, h2, h3, h4, h5, _⟩ := peekToken_eof _ st hin he hall hk
-    unfold scanLoop
+    obtain ⟨t, st', h1, h2, h3, h5⟩ := peekToken_eof _ st hin hall hk
+    unfold scanLoopOld
     have hi0 : i ≠ 0 := by omega
     simp only [hi0, if_false, h1, h2]
     have hne : ¬ (Kind.eof = expected) := fun h => hexp h.symm
     simp only [hne, if_false, if_true]
-    exact ih (i + 1) st' h3 (by rw [h4]; exact he) h5 (by omega)
+    exact ih (i + 1) st' h3 h5 (by omega)
 
-theorem scanLoopFixed_returns (expected : Kind) (hexp : expected ≠ .eof) (n i : Nat) (inAttr : Bool)
-    (first : Tok) (st : St) (hin : st.input = []) (he : st.eofTok.kind = .eof)
-    (hall : ∀ t ∈ st.unproc, t.kind = .eof) (hi : 1 ≤ i) :
-    ∃ st', scanLoopFixed expected (n + 1) i inAttr first st = .done false st' := by
-  have hk : 1 ≤ i - st.unproc.length ∨ st.unproc ≠ [] := by
-    cases hu : st.unproc with
-    | nil => left; simp; omega
-    | cons a l => right; simp
-  obtain ⟨t, st', h1, h2, _⟩ := peekToken_eof _ st hin he hall hk
-  refine ⟨st', ?_⟩
-  unfold scanLoopFixed
-  have hi0 : i ≠ 0 := by omega
-  have hne : ¬ (Kind.eof = expected) := fun h => hexp h.symm
-  simp only [hi0, if_false, h1, h2, hne]
-
-/-! ### The witness of the hang: `rec let x = 1⏎#[` -/
+/-! ### The former hang witness `rec let x = 1⏎#[` now ends -/
 
 def hangToks : List Tok :=
   [⟨.rec_, ⟨0, 1, 1⟩, 4⟩, ⟨.let_, ⟨0, 5, 5⟩, 8⟩, ⟨.other, ⟨0, 9, 9⟩, 10⟩, ⟨.equals, ⟨0, 11, 11⟩, 12⟩,
    ⟨.other, ⟨0, 13, 13⟩, 14⟩, ⟨.attrOpen, ⟨1, 1, 15⟩, 17⟩]
 def hangEof : Tok := ⟨.eof, ⟨1, 3, 17⟩, 17⟩
 
-theorem hang_witness : (layout hangToks hangEof 1000).2 = .hang := rfl
+theorem hang_witness_now_ok : (layout hangToks hangEof 1000).2 = .ok := rfl
 
 end GluonModel.LayoutAlgo.Proofs
